@@ -806,7 +806,11 @@ class P(Prop):
                 )
         # B. shipped methods that do not remap, without FASTA
         noremap = [n for n in names if not remaps_of_score_type(st_of(n))]
-        for n in (noremap if tier != "quick" else rng.sample(noremap, min(4, len(noremap)))):
+        # a method NAMED no_remap must run without a FASTA file whatever its score type spells (the substring test
+        # "remap" in "no_remap" makes a Percolator score type written `Perc no_remap …` a remapping one)
+        named = [n for n in names if "no_remap" in n]
+        picks = noremap if tier != "quick" else rng.sample(noremap, min(4, len(noremap)))
+        for n in list(dict.fromkeys(list(picks) + named)):
             cases.append(
                 {
                     "kind": "cli",
